@@ -347,6 +347,14 @@ impl<T> Router<T> {
     }
 }
 
+#[cfg(wayfind_verif)]
+impl<T> Router<T> {
+    /// Read-only access to the root node, for `crate::verif`.
+    pub(crate) const fn verif_root(&self) -> &Node<T, RootState> {
+        &self.root
+    }
+}
+
 impl<T> Display for Router<T> {
     fn fmt(&self, f: &mut std::fmt::Formatter<'_>) -> std::fmt::Result {
         write!(f, "{}", self.root)
